@@ -98,10 +98,14 @@ def check_instalments(rep, dec, schema, pre, base):
     if n < 2:
         return
     splits = sorted({1, n // 2, n - 1})
+    # max_read: a record-oriented source - one read() never returns more than `max_read` octets although more are there
+    # (TLS records, chunked transfer): the decoder's short-read branch then collects several parts before it finds the
+    # element unfinished and has to step back over ALL of them
+    plans = [(None, j, polls) for j in splits for polls in (1, 2, 3)] + [(m, j, 1) for m in (1, 3) for j in splits]
     for seekable in (False, True):
-        for j in splits:
-            for polls in (1, 2, 3):
-                s = streams.GrowingStream(seekable=seekable)
+        for max_read, j, polls in plans:
+            if True:
+                s = streams.GrowingStream(seekable=seekable, max_read=max_read)
                 out = []
                 try:
                     it = iter(dec.StreamingDecoder(s, asn1Spec=schema))
@@ -125,9 +129,10 @@ def check_instalments(rep, dec, schema, pre, base):
                 rep.count('instalments')
                 if out[-1] != 'EOS' or any(x != 'U' for x in out[:-1]):
                     rep.fail('prefix-instalments-' + '-'.join(out[-2:]),
-                             'a proper prefix (%d octets) arriving as %d + %d octets with %d empty poll(s) in between on a %s stream -> %s' % (
-                                 n, j, n - j, polls, 'seekable' if seekable else 'non-seekable', out),
-                             dict(base, seekable=seekable, split=j, polls=polls))
+                             'a proper prefix (%d octets) arriving as %d + %d octets with %d empty poll(s) in between on a %s stream%s -> %s' % (
+                                 n, j, n - j, polls, 'seekable' if seekable else 'non-seekable',
+                                 ' handing out at most %d octet(s) per read' % max_read if max_read else '', out),
+                             dict(base, seekable=seekable, split=j, polls=polls, max_read=max_read))
 
 
 def check_megabyte_elements(rep):
